@@ -144,29 +144,87 @@ STMTS = [
     "def fn5(x=d5, *, y=d6):\n    pass", "lam = lambda m, n=dn: m + n + fl", "lc = [e1 + o1 for e1 in src1 if e1 > o2]",
     "dc = {k1: v1 for k1, v1 in items}", "gen = (g1 for g1 in (g2 for g2 in src2))", "sc = {s1 for s1 in src3}", "x = [y for y in [z for z in zz]]",
     "global gg\ngg = 1", "a, (b, *c) = val", "x = y = yy", "print(x1)\nx1 = 5",
-    "async def co():\n    await aw", "lambda: (yield)", "x: int = ann", "nested = lambda: [q for q in qq if (lambda w: w + ww)(q)]", "f'{fs!r}'", "assert cond, msg",
+    "async def co():\n    await aw", "lambda: (yield)", "nested = lambda: [q for q in qq if (lambda w: w + ww)(q)]", "f'{fs!r}'", "assert cond, msg",
     "with open(fname) as f1, open(f2n) as f2:\n    pass", "for i, (j, k) in pairs:\n    pass", "try:\n    pass\nexcept (A, B):\n    pass", "x = [i for i in range(3)]\ny = i",
     "def outer():\n    def inner():\n        return free1\n    return inner", "ret = (lambda: defarg)()", "def g(x=dflt):\n    pass", "match_ = 1",
 ]
 
 
+STMTS += [
+    "def scaled(seq):\n    double = lambda n: n * 2\n    return [double(s) + n for s in seq]",
+    "def outer1(a1):\n    def inner1(b1):\n        return b1\n    return inner1(a1) + b1",
+    "def outer2():\n    f2 = lambda p2: p2\n    g2 = lambda: p2\n    return f2, g2",
+    "def outer3():\n    def in3(q3=1):\n        loc3 = q3\n        return loc3\n    return loc3, q3",
+    "lam4 = lambda u4: (lambda v4: v4)(u4) + v4",
+    "def outer5():\n    r5 = [c5 for c5 in src5]\n    return c5",
+]
+
+
+def gen_scope_program(rnd):
+    """small nested-scope programs over a tiny name pool, so that inner bindings collide with outer reads"""
+    names = ["n1", "n2", "n3", "n4"]
+    cvars = ["cv1", "cv2", "cv3"]
+    def expr(depth):
+        k = rnd.randrange(6)
+        if depth <= 0 or k == 0:
+            return rnd.choice(names)
+        if k == 1:
+            return "%s + %s" % (expr(depth - 1), expr(depth - 1))
+        if k == 2:
+            p = rnd.choice(names)
+            return "(lambda %s: %s)(%s)" % (p, expr(depth - 1), expr(depth - 1))
+        if k == 3:
+            v = rnd.choice(cvars)        # comprehension variables from their own pool: CPython 3.12's inlining
+            return "[%s + %s for %s in %s if %s]" % (v, expr(depth - 1), v, expr(depth - 1), expr(depth - 1))   # mis-scopes some sibling collisions
+        if k == 4:
+            p = rnd.choice(names)
+            return "(lambda *a, %s=%s, **k: %s)()" % (p, expr(depth - 1), expr(depth - 1))
+        v = rnd.choice(cvars)
+        return "{%s: %s for %s in %s}" % (v, expr(depth - 1), v, expr(depth - 1))
+    lines = []
+    for i in range(rnd.randrange(1, 3)):
+        p = rnd.choice(names)
+        body = ["    t%d = %s" % (i, expr(2))]
+        if rnd.random() < 0.6:
+            q = rnd.choice(names)
+            body.append("    def g%d(%s, *va, kw_%s=%s):" % (i, q, q, expr(1)))
+            body.append("        return %s" % expr(2))
+        body.append("    return %s" % expr(2))
+        lines.append("def f%d(%s):" % (i, p))
+        lines += body
+    lines.append("res = %s" % expr(2))
+    return "\n".join(lines)
+
+
+def scope_random_case(seed):
+    import random as _r
+    rnd = _r.Random(seed)
+    out = []
+    for _ in range(25):
+        r = identifiers_case(gen_scope_program(rnd))
+        if r:
+            out.append(r)
+    return out
+
+
 def free_names_oracle(code):
-    """names the code reads without binding them at its own level (function-body scoping), by symtable"""
+    """names the code reads without binding them (function-body scoping): what CPython's compiler resolves
+    through the global namespace when the code is the body of a function - read off the bytecode, which unlike
+    symtable keeps an inlined comprehension's variable apart from a free use of the same name"""
+    import dis
     src = "def __mako_body():\n" + textwrap.indent(code, "    ") + "\n"
-    top = symtable.symtable(src, "<c19>", "exec")
-    fn = top.get_children()[0]
+    top = compile(src, "<c19>", "exec")
+    body = next(c for c in top.co_consts if hasattr(c, "co_code") and c.co_name == "__mako_body")
     free = set()
 
-    def visit(tab, bound_outer):
-        for s in tab.get_symbols():
-            nm = s.get_name()
-            if s.is_referenced() and (s.is_global() or (s.is_free() and nm not in bound_outer)) and not (s.is_declared_global() and s.is_assigned()):
-                free.add(nm)
-        here = {s.get_name() for s in tab.get_symbols() if s.is_local() or s.is_parameter()}
-        for ch in tab.get_children():
-            visit(ch, bound_outer | here)
-    visit(fn, set())
-    import builtins
+    def walk(co):
+        for ins in dis.get_instructions(co):
+            if ins.opname in ("LOAD_GLOBAL", "LOAD_NAME"):
+                free.add(ins.argval)
+        for c in co.co_consts:
+            if hasattr(c, "co_code"):
+                walk(c)
+    walk(body)
     return free
 
 
